@@ -370,7 +370,7 @@ type client struct {
 
 // newClient builds an HTTP client exactly as a component would:
 // ClientConfig{Compression, CompressionParams}.Validate + ToClient.
-func newClient(comp string, level int) (*client, error) {
+func newClient(comp string, level int, bare bool) (*client, error) {
 	var ct configcompression.Type
 	if err := ct.UnmarshalText([]byte(comp)); err != nil {
 		return nil, err
@@ -385,7 +385,13 @@ func newClient(comp string, level int) (*client, error) {
 	}
 	obs := &observer{}
 	host := extHost{Host: componenttest.NewNopHost(), exts: map[component.ID]component.Component{mwID: obs}}
-	hc, err := cc.ToClient(bgCtx, host, componenttest.NewNopTelemetrySettings())
+	set := componenttest.NewNopTelemetrySettings()
+	if bare {
+		// an embedder that hands over no tracer / meter provider: the compressing round tripper then sits directly
+		// on the caller's request (no instrumentation layer in between that would clone it)
+		set.TracerProvider, set.MeterProvider = nil, nil
+	}
+	hc, err := cc.ToClient(bgCtx, host, set)
 	if err != nil {
 		return nil, err
 	}
@@ -431,14 +437,16 @@ func (e *envCache) server(limit int64, defaultList bool, enabled []string) (*ser
 	return s, nil
 }
 
-func (e *envCache) client(comp string, level int) (*client, error) {
-	key := fmt.Sprintf("%s|%d", comp, level)
+func (e *envCache) client(comp string, level int) (*client, error) { return e.clientOf(comp, level, false) }
+
+func (e *envCache) clientOf(comp string, level int, bare bool) (*client, error) {
+	key := fmt.Sprintf("%s|%d|%v", comp, level, bare)
 	e.mu.Lock()
 	defer e.mu.Unlock()
 	if c, ok := e.clients[key]; ok {
 		return c, nil
 	}
-	c, err := newClient(comp, level)
+	c, err := newClient(comp, level, bare)
 	if err != nil {
 		return nil, err
 	}
